@@ -11,10 +11,27 @@ open Gozod.Cont Gozod.Drv.ContParse
 
 def verdict (b : Bool) : String := if b then "ok" else "err"
 
+def insertDm (e : Nat × Nat) : List (Nat × Nat) → List (Nat × Nat)
+  | [] => [e]
+  | x :: xs => if e.1 < x.1 then e :: x :: xs else x :: insertDm e xs
+
+def sortDm (dm : List (Nat × Nat)) : List (Nat × Nat) := dm.foldl (fun a e => insertDm e a) []
+
 def handle (ts : List String) : String :=
   match parseCase ts with
   | none => "bad-op"
   | some c =>
+    match c.du with
+    | some (md, disc, os) =>
+      -- discriminated union: the model builds the index from what the options declare (`buildDiscMap`) and prints it
+      -- (the harness prints the index the real constructor built); the law is stated over the option list
+      let m := (parseDUDecl c.env md disc os c.input).isOk
+      let s := Spec.acceptsDU c.own md disc os c.input
+      let dm := match buildDiscMap os with
+        | none => "-"
+        | some dm => ",".intercalate ((sortDm dm).map (fun (e : Nat × Nat) => s!"{e.1}:{e.2}"))
+      s!"{verdict m} dm={dm}\t{verdict s} dm={dm}\tother"
+    | none =>
     let m := (run c.cfg c.env c.node c.input).isOk
     let s := Spec.accepts c.own c.written c.input
     -- a member the container cannot call, whose own verdict would have changed the composite's
